@@ -84,6 +84,11 @@ CHECKS={
    text='Exhaustive log-mutation enumeration: seeds (two CLI-produced logs incl. prune + result, a hand-merged log whose items share one timestamp; thorough: the legacy sample project) x {every truncation offset (quick: dense on the last two lines, every 7th elsewhere), every line delete / duplicate / adjacent swap, conflict markers / unknown event type / blank lines at every position, all permutations of the first 5 (6) lines, one (8) bit flips per byte, every field of every event replaced by null/0/true/[]/{}/""/malformed timestamps or removed, empty / CRLF / BOM / NUL / binary / no trailing newline, one line of 10 MiB-1 and 10 MiB+1}; on each content 11 read commands are run 3x (8x when sort keys tie) and 6 mutating commands once. Oracle: exit in {0,1}, never a panic or hang, exit 1 => `error:` message which for an unparsable line names file and 1-based line; repeated runs byte-identical; after all reads .ergo is byte-identical (a missing lock may appear); after a successful mutation other than compact the earlier events are all present, in order, with unchanged (type, ts, data).',
    note='Output determinism is decided by repetition: Go\'s map-iteration seed is not an interceptable choice point (a difference is always real; absence after k runs is evidence). Everything else is enumerated.',
    technique='exhaustive small-scope input (file content) enumeration over real commands'),
+
+ 'C18': dict(engine='SEQ', level='model_checking', design='3/C18',
+   text='Exhaustive configuration enumeration: all 27 layouts of a 3-level directory tree (.ergo absent / directory / regular file per level) x start directory at every level x up to 9 spellings (cwd only, --dir absolute, with trailing slash, ".", "..", relative name, "./x/../x", the .ergo directory itself absolute and relative) plus all 8 presence combinations of {plans.jsonl, events.jsonl, lock}, x 10 commands, plus 3 forms of init on every existing store. The checker computes the nearest enclosing .ergo from the layout: it must be what `where --json` reports, the only directory any command changes, read and written through the same log file (plans.jsonl if present else events.jsonl), the lock is recreated, no second log file appears, and init leaves every observation and every log byte-identical.',
+   note='Scratch directories have no .ergo above the tree root. Server backend conformance-checked (cwd/PWD handling) against spawned binaries.',
+   technique='exhaustive configuration enumeration over real commands'),
 }
 NA_REASON='check not built yet (work in progress; design in DESIGN.md)'
 m={"version":1,
